@@ -79,6 +79,10 @@ macro_rules! group_impl {
             pub fn to_uncompressed(&self) -> [u8; $UL] { token::<$UL>($KIND, self.term()) }
             pub fn from_compressed(b: &[u8; $CL]) -> CtOption<Self> { match untoken(b) { Some((k, id)) if k == $KIND => CtOption::new($A::from_term(id), Choice::from(1)), _ => CtOption::new($A::identity(), Choice::from(0)) } }
             pub fn from_compressed_unchecked(b: &[u8; $CL]) -> CtOption<Self> { match untoken(b) { Some((k, id)) if k == $KIND || k == K_INVALID => CtOption::new($A::from_term(id), Choice::from(1)), _ => CtOption::new($A::identity(), Choice::from(0)) } }
+            // rest of the inherent API of the real crate, so that a change to the code under test that uses it still builds
+            pub fn from_uncompressed_unchecked(b: &[u8; $UL]) -> CtOption<Self> { match untoken(b) { Some((k, id)) if k == $KIND || k == K_INVALID => CtOption::new($A::from_term(id), Choice::from(1)), _ => CtOption::new($A::identity(), Choice::from(0)) } }
+            pub fn is_on_curve(&self) -> Choice { Choice::from(1) }
+            pub fn is_torsion_free(&self) -> Choice { Choice::from(1) }
             pub fn from_uncompressed(b: &[u8; $UL]) -> CtOption<Self> { match untoken(b) { Some((k, id)) if k == $KIND => CtOption::new($A::from_term(id), Choice::from(1)), _ => CtOption::new($A::identity(), Choice::from(0)) } }
         }
         impl PartialEq for $P { fn eq(&self, o: &Self) -> bool { self.0 == o.0 } } impl Eq for $P {}
